@@ -68,6 +68,12 @@ def build_harness(name, race=False, tags='verif'):
         if os.path.exists(out):
             os.remove(out)
         cmd = ['go', 'build', '-tags', tags, '-overlay', ov, '-o', out]
+        if REPO != '/repo':
+            # scratch worktree of netpoll (mutation tests): same module file with the replace directive redirected
+            mf = os.path.join(WORK, 'go.alt.mod')
+            open(mf, 'w').write(open(os.path.join(GO, 'go.mod')).read().replace('=> /repo', '=> ' + REPO))
+            open(os.path.join(WORK, 'go.alt.sum'), 'w').write(open(os.path.join(GO, 'go.sum')).read())
+            cmd += ['-modfile', mf]
         if race:
             cmd.append('-race')
             e = go_env(); e['CGO_ENABLED'] = '1'
